@@ -73,6 +73,12 @@ theorem unicode_string_resave (us : List Nat) (pad : Nat) (h : ∀ u ∈ us, u <
     writeUnicodeString (decUnits us) pad = writeUnits us pad :=
   writeUnicodeString_decUnits us pad h
 
+/-- Whatever the reader returns from any stream can be written again, and the cursor only
+moves forward (`sound` law of DESIGN section 3). -/
+theorem unicode_string_sound (d : BL) (pos pad : Nat) (s : Str) (p : Nat) :
+    readUnicodeString d pos pad = .ok (s, p) → (∃ bs, writeUnicodeString s pad = .ok bs) ∧ pos + 4 ≤ p :=
+  readUnicodeString_sound d pos pad s p
+
 /-- The value read does not depend on the reader's padding (tagged blocks are written with
 padding 4 and read from their own buffer with padding 1). -/
 theorem unicode_string_value_any_reader_padding (s : Str) (pw pr : Nat) (bs pre post : BL)
